@@ -120,7 +120,7 @@ theorem sim3_run (c : Ctx) (n nS : Nat) (prog : List Insn) (lo hi : Nat) (bal cm
           (fun st hg r q hr hq => by
             rcases hg0 with hg0 | hlin
             · exact same_of_const_groupfree c n es h.ws hcs hz hp hg0 hlen st hg r q hr hq
-            · exact eq_of_mem_length_le_one (linearAll_le_one c es hlin st) hr hq)
+            · exact linearAll_same c n hlen es hlin h.ws hz st hg r q hr hq)
 
 /-- a run emitted by `compile_delegates` in a committing position (the trailing easy children of a
     concatenation in a non-hard context): any easy expressions, capture groups included -/
